@@ -38,11 +38,23 @@ def _run_job(args):
             torch.manual_seed(gs); random.seed(gs)
         except Exception:
             pass
+        from vf import sched as _sched
+        _sched.BUDGET['solver_calls'] = int(os.environ.get('VERIF_MAX_BRANCH_CALLS', '0')) or {'quick': 10_000, 'thorough': 400_000}[tier]
+        _sched.BUDGET['paths'] = int(os.environ.get('VERIF_MAX_PATHS', '0')) or {'quick': 2_000, 'thorough': 20_000}[tier]
         res = getattr(mod, fn)(tier=tier, rng=rng, **kwargs)
         for r in res:
             r.setdefault('job', f'{fn}{kwargs}')
         res.append(dict(id=f'_job.{fn}{kwargs}', verdict='jobmeta', wall_s=round(time.time() - t0, 3)))
         return res
+    except Exception as ex:
+        from vf.sched import Unsupported as _Uns
+        if isinstance(ex, _Uns):
+            # the code under proof uses a construct the engine does not model and the job does not handle it locally: nothing is decided by this job (never a fault)
+            return [dict(id=f'{modname.split(".")[-1].upper()}.{fn}{kwargs}.explore', verdict='undecided', tier='P', backend='-', time_s=time.time() - t0, functions=[], job=f'{fn}{kwargs}',
+                         detail='engine: ' + str(ex) + ' | ' + ''.join(traceback.format_exception(ex))[-800:]),
+                    dict(id=f'_job.{fn}{kwargs}', verdict='jobmeta', wall_s=round(time.time() - t0, 3))]
+        return [dict(id=f'{modname}.{fn}{kwargs}', verdict='crash', tier='P', backend='-', time_s=time.time() - t0,
+                     detail=''.join(traceback.format_exception(ex))[-3000:], functions=[])]
     except BaseException as ex:  # noqa
         return [dict(id=f'{modname}.{fn}{kwargs}', verdict='crash', tier='P', backend='-', time_s=time.time() - t0,
                      detail=''.join(traceback.format_exception(ex))[-3000:], functions=[])]
@@ -173,7 +185,8 @@ def finish(mod, prop, tier, seed, recs, t0, partial=False):
         functions_checked_bounded_only=sorted({f for r in Bn for f in (r.get('functions') or [])} - set(fns)),
         discharged_by_backend=by_backend, solver_seconds=round(solver_s, 2),
         max_solver_rlimit=max([m.get('max_rlimit', 0) for m in metas] or [0]), solver_rlimit_budget=int(os.environ.get('VERIF_RLIMIT', '0')) or {'quick': 2_000_000_000, 'thorough': 40_000_000_000}[tier],
-        paths=sum(m.get('paths', 0) for m in metas), crosscheck_inputs=sum(m.get('crosscheck_inputs', 0) for m in metas),
+        paths=sum(m.get('paths', 0) for m in metas), max_paths_one_contract=max([m.get('paths', 0) for m in metas] + [0]), max_branch_solver_calls_one_contract=max([m.get('branch_solver_calls', 0) for m in metas] + [0]),
+        crosscheck_inputs=sum(m.get('crosscheck_inputs', 0) for m in metas),
         canaries_refuted=len([r for r in proved if r.get('canary_negated_clause_refuted')]),
         shapes=getattr(mod, 'SHAPES', {}).get(tier),
         stubs=list(getattr(mod, 'STUBS', [])), numpy_models=list(getattr(mod, 'NUMPY_MODELS', [])),
